@@ -215,6 +215,23 @@ theorem RecordValues_tie {h : Hdr.Hist} (wf : Hdr.WF h) (v : Nat) (hv : v < 2 ^ 
     have h0 : ¬ Hdr.countsIndexFor h v < 0 := fun x => hc (Or.inl x)
     simp only [cfgOf, Gen.Go.set, Gen.Go.index, h0, if_false, Hdr.listModify, List.getD_eq_getElem?_getD, set_getD_modify]
 
+/-! ### the sizing loop of `New` (translated on its own: the function around it computes with floats) -/
+
+theorem New_loop_tie (fuel : Nat) : ∀ (smallest mx n : Nat),
+    (Gen.Hdr.New_loop1 (mx : Int) fuel (n : Int) (smallest : Int)).1 = (Hdr.bucketsLoop fuel smallest mx n : Int) := by
+  induction fuel with
+  | zero => intro s m n; simp [Gen.Hdr.New_loop1, Hdr.bucketsLoop]
+  | succ f ih =>
+    intro s m n
+    simp only [Gen.Hdr.New_loop1, Hdr.bucketsLoop]
+    by_cases h : s ≤ m
+    · have h' : (s : Int) ≤ (m : Int) := by omega
+      simp only [h, h', if_true, show Int.toNat 1 = 1 from rfl, cast_shl]
+      rw [show ((n : Int) + 1) = ((n + 1 : Nat) : Int) by omega]
+      exact ih (s <<< 1) m (n + 1)
+    · have h' : ¬ (s : Int) ≤ (m : Int) := by omega
+      simp [h, h']
+
 theorem getOffset_tie (count sample metric : Nat) :
     Gen.Util.getOffset count sample metric = ((metric * count + sample : Nat) : Int) := by
   simp [Gen.Util.getOffset]
